@@ -20,7 +20,16 @@ def replay(pid, path):
     if e1 or e2:
         print(e1 or e2)
         return 2
-    recs = run.run_batch([path], l2, dr, os.path.join(build.WORK, "scratch", "replay.out"))
+    if "REAL server over HTTP" in open(path).read(4000):
+        # the record came from the real-server phase: replay it there (the in-process harness has no geofilter)
+        import l3, l3batch
+        binary, e3 = l3.build_server()
+        if e3:
+            print(e3)
+            return 2
+        recs = l3batch.replay_case(path, dr, binary, os.path.join(build.WORK, "scratch", "replay-l3-%s" % pid))
+    else:
+        recs = run.run_batch([path], l2, dr, os.path.join(build.WORK, "scratch", "replay.out"))
     known = cl.load_known()
     res = props_l2.evaluate(pid, recs, known)
     for r in recs:
@@ -66,6 +75,23 @@ def main(pid, tier, seed, replay_path=None):
         return 1
 
     recs = cl.routes_batch(seed, tier, l2, dr)
+    l3_ops = 0
+    if pid == "C07":
+        # the NO_ACCESS_* reasons depend on what the request factory and the geofilter in front of the router make of the
+        # walking maxima (no limit, very large values, values equal to a row): the same reasons as the REAL server gives
+        # them over HTTP, on generated cache directories, judged by the same model and oracle
+        import l3, l3batch
+        binary, e3 = l3.build_server()
+        if e3:
+            path = cl.write_nofail_replay(pid, "server build against /repo", str(e3))
+            print("VIOLATION property=%s replay=%s no-failing-input-found" % (pid, path))
+            return 1
+        n3, nq3 = (14, 14) if tier == "quick" else (150, 20)
+        more, _extras = l3batch.l3_batch(seed + 77, n3, nq3, dr, os.path.join(build.WORK, "scratch", "c07-l3-%d-%s" % (seed, tier)), binary=binary)
+        for r in more:
+            r["l3"] = True
+        l3_ops = len(more)
+        recs = recs + more
     res = props_l2.evaluate(pid, recs, known)
     widened = 0
     # a broken obligation or correspondence: widen the search for a failing input before giving up
@@ -87,7 +113,7 @@ def main(pid, tier, seed, replay_path=None):
     rc = 0
     if res["fails"]:
         why, r = res["fails"][0]
-        path = cl.write_replay(pid, r, why)
+        path = cl.write_replay(pid, r, why, extra="answer of the REAL server over HTTP on the cache directory written from this dataset (tools/l3batch.py)" if r.get("l3") else None)
         print("VIOLATION property=%s replay=%s" % (pid, path))
         print("  %s\n  op   : %s\n  impl : %s\n  oracle: %s" % (why, r["op"], r["impl"], r["verdict"]))
         violations.append(path)
@@ -125,6 +151,9 @@ def main(pid, tier, seed, replay_path=None):
                samples=samples, status_distribution=res["dist"], rewrites_fired=res["rewrites"],
                correspondence_disagreements=len(res["diffs"]), oracle_violations=len(res["fails"]),
                known_findings_reobserved=sorted(reported_known), widened_search_cases=widened, exhaustive=False)
+    if l3_ops:
+        cov["real_server_operations"] = l3_ops
+        cov["rule"] += "; plus %d operations answered by the real server over HTTP on generated cache directories (walking maxima incl. no limit, 50000/60000 s, values equal to a row)" % l3_ops
     cl.write_evidence(pid, tier, seed, "proof", cov,
                       ["the walking router is a table (TableGeoFilter); datasets enter through an in-memory DataFetcher that builds connections like the cache loader (tied separately by C16)",
                        "the tie is differential: its strength is bounded by the generators whose measured distribution is listed"],
